@@ -1215,17 +1215,22 @@ func representableConst(c constant.Value, t reflect.Type) bool {
 		}
 		switch t.Kind() {
 		case reflect.Int, reflect.Int8, reflect.Int16, reflect.Int32, reflect.Int64:
-			if _, ok := constant.Int64Val(x); !ok {
+			i, ok := constant.Int64Val(x)
+			if !ok {
 				return false
 			}
+			// A signed type of s bits holds -1<<(s-1) .. 1<<(s-1)-1: the bit length of
+			// the magnitude alone would accept 128..255 and -255..-129 for int8.
+			s := uint(bitlen[t.Kind()])
+			return -1<<(s-1) <= i && i <= 1<<(s-1)-1
 		case reflect.Uint, reflect.Uint8, reflect.Uint16, reflect.Uint32, reflect.Uint64, reflect.Uintptr:
 			if _, ok := constant.Uint64Val(x); !ok {
 				return false
 			}
+			return constant.BitLen(x) <= bitlen[t.Kind()]
 		default:
 			return false
 		}
-		return constant.BitLen(x) <= bitlen[t.Kind()]
 	case isFloat(t):
 		x := constant.ToFloat(c)
 		if x.Kind() != constant.Float {
